@@ -185,9 +185,12 @@ def handle : List String → String
       | .error .checksum => "err:checksum"
     | none => "bad-op"
   | ["cb", f, t, pad, d] => match f.toNat?, t.toNat?, parseNats? d with
-    | some f, some t, some d => match convertBits d f t (pad == "1") with
-      | .ok r => "ok " ++ natsTok r
-      | .error e => "err:" ++ bechErrName e
+    | some f, some t, some d =>
+      let sh (r : Except BechErr (List Nat)) : String := match r with
+        | .ok r => "ok " ++ natsTok r
+        | .error e => "err:" ++ bechErrName e
+      let a := sh (convertBits d f t (pad == "1"))
+      if sh (convertBitsAlgo d f t (pad == "1")) == a then a else "model-mismatch"
     | _, _, _ => "bad-op"
   | ["benc", ver, hrp, d] => match hexToList? hrp, parseNats? d with
     | some hrp, some d => match bechEncode hrp d (if ver == "m" then .vM else .v0) with
